@@ -33,7 +33,10 @@
 (* needing all bits of the class).  Finish places everything and encodes the *)
 (* SAME object twice: WithSections (.dynsym, string table, hash sections,    *)
 (* .dynamic linked to the string table; variant "match": PT_DYNAMIC covers   *)
-(* .dynamic; variant "split": PT_DYNAMIC covers a second copy of the array,  *)
+(* .dynamic; "matchdecoy": likewise, but the real string table is not called *)
+(* .dynstr and a decoy section of that name exists (the standard designates  *)
+(* tables by link and address, never by name);                               *)
+(* variant "split": PT_DYNAMIC covers a second copy of the array,  *)
 (* so .dynamic's sh_offset differs from p_offset, the real string table is   *)
 (* not called .dynstr and a decoy section called .dynstr exists) and         *)
 (* Stripped (e_shoff = e_shnum = e_shstrndx = 0, program headers only).      *)
@@ -96,14 +99,14 @@ StrOffs == TLCEval(LET offs == NameOffs([k \in 1..Len(InTable) |-> NameSeq[InTab
                        OffOf(x) == offs[CHOOSE k \in 1..Len(InTable) : InTable[k] = x]
                    IN [id \in AllIds |-> IF id = 1 THEN 0 ELSE IF id = 3 THEN OffOf(2) + 5 ELSE OffOf(id)])
 ASSUME \A id \in AllIds : CStrAt(DynStr, StrOffs[id]).s = NameSeq[id]
-\* the decoy table of variant "split": every non-empty string read from it differs
+\* the decoy table of variants "split" and "matchdecoy": every non-empty string read from it differs
 Decoy == <<0, 88, 88, 88, 88, 88, 88, 0>>
 GH == TLCEval([k \in AllIds |-> GnuHash(NameSeq[k])])
 EH == TLCEval([k \in AllIds |-> ElfHash(NameSeq[k])])
 
 (* ---------------------------- abstract tags ---------------------------- *)
 \* k: kind; c: the low four digits of d_tag; sx: the tag is sign-extended to the class width (a negative tag);
-\* a: argument - "str": name id; "val": a field value or "big"; "tab": which table; "bss" / "in": nothing
+\* a: argument - "str": name id; "val": a field value or Big; "tab": which table; "in": distance from the string table
 T(k, c, sx, a) == [k |-> k, c |-> c, sx |-> sx, a |-> a]
 C1(n) == <<n, 0, 0, 0>>
 Big == [big |-> TRUE]                                    \* "a value needing all bits of the class"
@@ -121,9 +124,10 @@ Alpha == << T("str", C1(1), FALSE, 2),                        \*  1 DT_NEEDED "l
             T("val", <<120, 86, 52, 18>>, FALSE, N(3)),       \* 11 0x12345678: unassigned
             T("val", <<1, 0, 0, 128>>, TRUE, Big),          \* 12 a negative d_tag
             T("bss", C1(3), FALSE, 0),                        \* 13 DT_PLTGOT -> memory without file image
-            T("in", C1(12), FALSE, 0),                        \* 14 DT_INIT -> file-backed memory
+            T("in", C1(12), FALSE, 1),                        \* 14 DT_INIT -> file-backed memory (string table + 1)
             T("val", C1(21), FALSE, N(0)),                    \* 15 DT_DEBUG 0
-            T("str", C1(15), FALSE, 8) >>                     \* 16 DT_RPATH, not UTF-8
+            T("str", C1(15), FALSE, 8),                       \* 16 DT_RPATH, not UTF-8
+            T("in", C1(12), FALSE, 3) >>                      \* 17 a DT_INIT with another target (string table + 3): the first one counts
 TabTag(which) == CASE which = "hash" -> T("tab", C1(4), FALSE, "hash")
                    [] which = "gnuhash" -> T("tab", <<245, 254, 255, 111>>, FALSE, "gnuhash")
                    [] which = "strtab" -> T("tab", C1(5), FALSE, "strtab")
@@ -207,7 +211,9 @@ Cfs == << Cf(64, TRUE, 62, 0),       \* 1 x86-64
           Cf(32, FALSE, 20, 0) >>    \* 8 PowerPC
 CfOf(cl) == Cf(cl[1], cl[2], IF cl[1] = 64 THEN 62 ELSE 3, 0)
 Layouts == {"one", "two", "bss", "twobss", "high"}
-Variants == {"match", "split"}
+Variants == {"match", "matchdecoy", "split"}
+IsSplit(x) == x.variant = "split"
+HasDecoy(x) == x.variant \in {"split", "matchdecoy"}
 MPos == {"front", "back", "mid"}
 HKinds == {"none", "sysv", "gnu", "both"}
 Obj(mode, cf, layout, variant, mpos, fid, free, tid, syms, hk, nb, so, ld) ==
@@ -245,7 +251,7 @@ Idle == [view |-> "idle", pc |-> "idle", sc |-> ScanStart, stroff |-> -1, strs |
 Init ==
   /\ phase = "build" /\ mem = NoMem /\ rd = Idle
   /\ \E mode \in Modes :
-       CASE mode = "tags" -> \E c \in TagCfs, v \in Variants :
+       CASE mode = "tags" -> \E c \in TagCfs : \E v \in {"split", IF c % 2 = 1 THEN "match" ELSE "matchdecoy"} :
                                o = Obj(mode, Cfs[c], "one", v, "front", <<>>, <<>>, 2, TwoSyms(Cfs[c].cls), "both", 2, 1, FALSE)
          [] mode = "tail" -> \E cl \in ClsLe, t \in 1..Len(Tails), mp \in MPos, v \in Variants :
                                o = Obj(mode, CfOf(cl), "two", v, mp, <<1, 4, 1>>, <<Alpha[1], Alpha[4], Alpha[1]>>, t, TwoSyms(cl[1]), "sysv", 1, 1, FALSE)
@@ -254,9 +260,9 @@ Init ==
          [] mode = "syms" -> \E cl \in ClsLe, hk \in HKinds, nb \in NBuckets, ld \in BOOLEAN, l \in {"one", "twobss"} :
                                /\ (ld => hk \in {"gnu", "both"})
                                /\ (l = "twobss" => nb = 1)
-                               /\ o = Obj(mode, CfOf(cl), l, IF nb = 1 THEN "split" ELSE "match", "front", <<1>>, <<Alpha[1]>>, 1, <<>>, hk, nb, 0, ld)
+                               /\ o = Obj(mode, CfOf(cl), l, IF nb = 1 THEN "split" ELSE IF ld THEN "matchdecoy" ELSE "match", "front", <<1>>, <<Alpha[1]>>, 1, <<>>, hk, nb, 0, ld)
          [] mode = "sweep" -> \E s \in SweepIds : \E g \in 1..NGroups(s) :
-                               o = Obj(mode, SweepSpecs[s].cf, "one", IF g % 2 = 0 THEN "split" ELSE "match", "front", <<s, g>>, SweepTags(s, g), 1,
+                               o = Obj(mode, SweepSpecs[s].cf, "one", CASE g % 3 = 0 -> "split" [] g % 3 = 1 -> "match" [] OTHER -> "matchdecoy", "front", <<s, g>>, SweepTags(s, g), 1,
                                        <<LSym(6, 1, SweepSpecs[s].cf.cls)>>, "sysv", 1, 1, FALSE)
 
 AddTag(i) ==
@@ -278,8 +284,8 @@ Ix(x) == [sym |-> 1, str |-> 2,
           hash |-> IF HasV(x) THEN 3 ELSE -1,
           gnu |-> IF HasG(x) THEN 3 + B2N(HasV(x)) ELSE -1,
           dyn |-> 3 + B2N(HasV(x)) + B2N(HasG(x)),
-          copy |-> IF x.variant = "split" THEN 4 + B2N(HasV(x)) + B2N(HasG(x)) ELSE -1,
-          decoy |-> IF x.variant = "split" THEN 5 + B2N(HasV(x)) + B2N(HasG(x)) ELSE -1]
+          copy |-> IF IsSplit(x) THEN 4 + B2N(HasV(x)) + B2N(HasG(x)) ELSE -1,
+          decoy |-> IF HasDecoy(x) THEN 4 + B2N(HasV(x)) + B2N(HasG(x)) + B2N(IsSplit(x)) ELSE -1]
 Mand(x) == (IF HasV(x) THEN <<TabTag("hash")>> ELSE <<>>) \o (IF HasG(x) THEN <<TabTag("gnuhash")>> ELSE <<>>)
            \o <<TabTag("strtab"), TabTag("symtab"), T("val", C1(10), FALSE, N(Len(DynStr))), T("val", C1(11), FALSE, N(SizeOf(SymF(x.cls), x.cls)))>>
 Body(x) == CASE x.mpos = "front" -> Mand(x) \o x.free
@@ -331,7 +337,7 @@ ValDigits(x, P, t) ==
     [] t.k = "val" -> Digits(IF "big" \in DOMAIN t.a THEN BigOf(x) ELSE t.a, Ws(x))
     [] t.k = "tab" -> P[t.a]
     [] t.k = "bss" -> P.bss
-    [] t.k = "in" -> Plus(P.strtab, 1)
+    [] t.k = "in" -> Plus(P.strtab, t.a)
     [] t.k = "null" -> DZero(Ws(x)))
 EncTags(x, P, ts) == CatAll([i \in 1..Len(ts) |-> Fix(W(TagDigits(x, ts[i])), Ws(x), x.le) \o Fix(W(ValDigits(x, P, ts[i])), Ws(x), x.le)], Len(ts))
 
@@ -340,7 +346,7 @@ EncTags(x, P, ts) == CatAll([i \in 1..Len(ts) |-> Fix(W(TagDigits(x, ts[i])), Ws
 \* tables under the object's PT_LOAD layout.  Encode: the dynamic array with those addresses, the image.
 \* (Three actions rather than one: what an action stores in `mem` is a concrete value, whereas TLC re-evaluates a LET
 \* definition at every use inside a function constructor.)
-SecCount(x) == IF x.variant = "split" THEN Ix(x).decoy ELSE Ix(x).dyn
+SecCount(x) == IF HasDecoy(x) THEN Ix(x).decoy ELSE Ix(x).dyn
 NLoad(x) == IF x.layout \in {"two", "twobss"} THEN 2 ELSE 1
 Build(so) ==
   /\ phase = "build"
@@ -361,7 +367,7 @@ PlaceTables ==
   /\ phase = "built"
   /\ LET x == o   ix == Ix(o)   w == Ws(o)
          lens == <<Len(mem.symb), Len(DynStr)>> \o (IF HasV(x) THEN <<Len(mem.hb)>> ELSE <<>>) \o (IF HasG(x) THEN <<Len(mem.gb)>> ELSE <<>>)
-                 \o <<mem.dynlen>> \o (IF x.variant = "split" THEN <<mem.dynlen, Len(Decoy)>> ELSE <<>>)
+                 \o <<mem.dynlen>> \o (IF IsSplit(x) THEN <<mem.dynlen>> ELSE <<>>) \o (IF HasDecoy(x) THEN <<Len(Decoy)>> ELSE <<>>)
          \* where the data region starts (Elf.tla: after the ELF header and the program header table) and ends (after .shstrtab)
          hdr == [Im0 EXCEPT !.cls = x.cls, !.segs = [j \in 1..(NLoad(x) + 1) |-> Z]]
          d0 == DataOff(hdr)
@@ -375,14 +381,12 @@ PlaceTables ==
 Sections(x, m, ad, dyn) ==
   LET c == x.cls   w == Ws(x)   ix == Ix(x) IN
   << Sec(DotDynsym, Sht("SHT_DYNSYM"), N(2), ad[ix.sym], m.symb, N(Len(m.symb)), N(ix.str), N(1), N(w), N(SymEnt(x))),
-     Sec(IF x.variant = "split" THEN DotDstr ELSE DotDynstr, Sht("SHT_STRTAB"), N(2), ad[ix.str], DynStr, N(Len(DynStr)), Z, Z, N(1), Z) >>
+     Sec(IF HasDecoy(x) THEN DotDstr ELSE DotDynstr, Sht("SHT_STRTAB"), N(2), ad[ix.str], DynStr, N(Len(DynStr)), Z, Z, N(1), Z) >>
   \o (IF HasV(x) THEN << Sec(DotHash, Sht("SHT_HASH"), N(2), ad[ix.hash], m.hb, N(Len(m.hb)), N(ix.sym), Z, N(4), N(4)) >> ELSE <<>>)
   \o (IF HasG(x) THEN << Sec(DotGnuHash, Sht("SHT_GNU_HASH"), N(2), ad[ix.gnu], m.gb, N(Len(m.gb)), N(ix.sym), Z, N(w), Z) >> ELSE <<>>)
   \o << Sec(DotDynamic, Sht("SHT_DYNAMIC"), N(3), ad[ix.dyn], dyn, N(m.dynlen), N(ix.str), Z, N(w), N(DynEnt(c))) >>
-  \o (IF x.variant = "split"
-      THEN << Sec(DotData, Sht("SHT_PROGBITS"), N(3), ad[ix.copy], dyn, N(m.dynlen), Z, Z, N(w), Z),
-              Sec(DotDynstr, Sht("SHT_STRTAB"), N(2), ad[ix.decoy], Decoy, N(Len(Decoy)), Z, Z, N(1), Z) >>
-      ELSE <<>>)
+  \o (IF IsSplit(x) THEN << Sec(DotData, Sht("SHT_PROGBITS"), N(3), ad[ix.copy], dyn, N(m.dynlen), Z, Z, N(w), Z) >> ELSE <<>>)
+  \o (IF HasDecoy(x) THEN << Sec(DotDynstr, Sht("SHT_STRTAB"), N(2), ad[ix.decoy], Decoy, N(Len(Decoy)), Z, Z, N(1), Z) >> ELSE <<>>)
 \* the length of .shstrtab (Elf.tla writes it after the user sections)
 ShStrLen(x) == Len(StrTab([Im0 EXCEPT !.secs = Sections(x, [symb |-> <<>>, hb |-> <<>>, gb |-> <<>>, dynlen |-> 0], [k \in 1..SecCount(x) |-> Z], <<>>)]))
 Addresses ==
@@ -392,9 +396,9 @@ Addresses ==
          loads == Loads(o, mem.offs[ix.str], dend)
          ad == [k \in 1..Len(mem.offs) |-> AddrOf(loads, mem.offs[k])]
          P == [strtab |-> ad[ix.str], symtab |-> ad[ix.sym], hash |-> IF HasV(x) THEN ad[ix.hash] ELSE DZero(w),
-               gnuhash |-> IF HasG(x) THEN ad[ix.gnu] ELSE DZero(w), decoy |-> IF x.variant = "split" THEN ad[ix.decoy] ELSE Plus(ad[ix.str], 2),
+               gnuhash |-> IF HasG(x) THEN ad[ix.gnu] ELSE DZero(w), decoy |-> IF HasDecoy(x) THEN ad[ix.decoy] ELSE Plus(ad[ix.str], 2),
                bss |-> Plus(loads[1].va, loads[1].fsz + 16)]
-         pd == IF x.variant = "split" THEN ix.copy ELSE ix.dyn IN
+         pd == IF IsSplit(x) THEN ix.copy ELSE ix.dyn IN
      mem' = [f \in DOMAIN mem \cup {"dend", "loads", "ad", "P", "pdyn"} |->
                CASE f = "dend" -> dend [] f = "loads" -> loads [] f = "ad" -> ad [] f = "P" -> P
                  [] f = "pdyn" -> [off |-> mem.offs[pd], size |-> mem.dynlen, index |-> Len(loads), sec |-> pd]
@@ -412,7 +416,7 @@ Encode ==
          wads == [k \in 1..Len(mem.ad) |-> W(mem.ad[k])]
          im == [Im0 EXCEPT !.cls = x.cls, !.le = x.le, !.machine = x.machine, !.osabi = x.osabi, !.etype = N(3),
                            !.secs = Sections(o, mem, wads, dyn), !.segs = segs]
-         data == mem.symb \o DynStr \o mem.hb \o mem.gb \o dyn \o (IF x.variant = "split" THEN dyn \o Decoy ELSE <<>>) IN
+         data == mem.symb \o DynStr \o mem.hb \o mem.gb \o dyn \o (IF IsSplit(x) THEN dyn ELSE <<>>) \o (IF HasDecoy(x) THEN Decoy ELSE <<>>) IN
      mem' = [f \in DOMAIN mem \cup {"im", "data"} |-> CASE f = "im" -> im [] f = "data" -> data [] OTHER -> mem[f]]
   /\ phase' = "done"
   /\ UNCHANGED <<o, rd>>
@@ -489,10 +493,10 @@ IsPtr(t) == t.k \in {"tab", "bss", "in"}
 \* where a pointer tag's target lies in the file (-1: nowhere)
 TargetOff(x, t) ==
   CASE t.k = "bss" -> -1
-    [] t.k = "in" -> mem.offs[Ix(x).str] + 1
+    [] t.k = "in" -> mem.offs[Ix(x).str] + t.a
     [] t.k = "tab" -> CASE t.a = "strtab" -> mem.offs[Ix(x).str] [] t.a = "symtab" -> mem.offs[Ix(x).sym] [] t.a = "hash" -> mem.offs[Ix(x).hash]
                         [] t.a = "gnuhash" -> mem.offs[Ix(x).gnu]
-                        [] t.a = "decoy" -> IF x.variant = "split" THEN mem.offs[Ix(x).decoy] ELSE mem.offs[Ix(x).str] + 2
+                        [] t.a = "decoy" -> IF HasDecoy(x) THEN mem.offs[Ix(x).decoy] ELSE mem.offs[Ix(x).str] + 2
 DtByCode == TLCEval([k \in DtKeys |-> RegByCode[k]])
 TagView(x, t) ==
   LET td == TagDigits(x, t) IN
@@ -593,8 +597,8 @@ SameData ==
     LET a == Split(ImWith)   b == Split(ImStripped) IN
     /\ a.common = b.common /\ b.sh = <<>> /\ a.sh # <<>>
     /\ EhdrRec(ImStripped).e_shoff = Z /\ EhdrRec(ImStripped).e_shnum = Z /\ EhdrRec(ImStripped).e_shstrndx = Z
-    /\ (o.variant = "match" <=> mem.pdyn.off = mem.offs[Ix(o).dyn])
-    /\ (o.variant = "split" => mem.im.secs[Ix(o).copy].data = mem.im.secs[Ix(o).dyn].data)
+    /\ (~IsSplit(o) <=> mem.pdyn.off = mem.offs[Ix(o).dyn])
+    /\ (IsSplit(o) => mem.im.secs[Ix(o).copy].data = mem.im.secs[Ix(o).dyn].data)
 ChunksOK == Done /\ rd.view = "idle" => ChunksDisjoint(ImWith) /\ ChunksDisjoint(ImStripped)
 \* the offsets the writer placed the tables at are the offsets Elf.tla's layout gives the sections; the data region the reader
 \* works on is the concatenation of the sections' bytes
